@@ -570,6 +570,13 @@ func Exec(args []string, env *Env) int {
 		}
 		f.Write(data[half:])
 		f.Close()
+		if opts["mtime"] == "old" {
+			// a tool that restores the modification time of what it unpacks / copies (tar x, cp -p, rsync -a)
+			old := time.Date(2001, 2, 3, 4, 5, 6, 0, time.UTC)
+			if !w.stream {
+				os.Chtimes(full, old, old)
+			}
+		}
 		outs[w.port] = Sha(data)
 	}
 	if ex := opts["extra"]; ex != "" {
